@@ -21,15 +21,19 @@ CONFIG = {
         'plumpy.workchains._If._ifs': 'list',
         'plumpy.workchains._Conditional._body': 'None|plumpy.workchains._Block',
         'plumpy.workchains.WorkChain._stepper': 'None|plumpy.workchains.Stepper',
+        'plumpy.mixins.ContextMixin._context': 'None|plumpy.utils.AttributesDict',
     },
-    'class_invariants': {'plumpy.workchains._Block': 'wf_block', 'plumpy.workchains._If': 'wf_if'},
+    'class_invariants': {'plumpy.workchains._Block': 'wf_block', 'plumpy.workchains._If': 'wf_if',
+                         'plumpy.workchains.Waiting': 'awaits_futures'},
     # ghosts: LASTRET = the pair returned by a stepper's most recent step(); FORINSTR = the instruction a stepper was made for
     # NSTEPS = number of normal returns of a stepper's step() (a `return_` leaves it unchanged)
     'ghost_arrays': {'LASTRET': 'val', 'FORINSTR': 'val', 'NSTEPS': 'int'},
     'user_havoc': 'all',
+    'foreign_shortcut': True,     # receivers known to be foreign objects (is_foreign) are called as unknown code
     # A-PRIV: user steps and predicates do not touch steppers, instructions or the outline
     'protected_classes': ['plumpy.workchains.Stepper', 'plumpy.workchains._Instruction', 'plumpy.workchains._Conditional',
-                          'plumpy.base.state_machine.StateMachine', 'plumpy.persistence.LoadSaveContext'],
+                          'plumpy.base.state_machine.StateMachine', 'plumpy.persistence.LoadSaveContext',
+                          'plumpy.base.state_machine.State'],
 }
 
 
@@ -297,12 +301,30 @@ def return_create_stepper(self, workchain):
 from plumpy.process_states import Continue, Wait
 
 
-@contract('plumpy.workchains.WorkChain.to_context', assumed=True)
-def to_context(self, **kwargs):
-    """ASSUMED here (proved under C10): registers the awaitables under their keys; touches only the awaitables map"""
-    modifies(user_effects, contents(self._awaitables))
-    ensures(self._awaitables is old(self._awaitables))
-    raises(Exception, True)
+@spec
+def resolved(a):
+    """what is actually awaited for an item handed to the context: a child process stands for its future"""
+    return a._future if isinstance(a, Process) else a
+
+
+@contract('plumpy.workchains.WorkChain.to_context', props=['C10'], ghost=['K'])
+def to_context(self, K=None, **kwargs):
+    """every item handed over is registered in the awaitables of the current step under (one of) its key(s) (K: an arbitrary
+    key); nothing registered before is dropped; only the awaitables map is written"""
+    requires(is_dict(self._awaitables) and is_str(K))
+    requires(kwargs is not self._awaitables)      # Python semantics: **kwargs is a dictionary made for this call
+    aw = self._awaitables
+    modifies(contents(self._awaitables))
+    raises_nothing()
+    ensures('registered', implies(dhas(kwargs, K), dhas(aw, resolved(dget(kwargs, K))) and dhas(kwargs, dget(aw, resolved(dget(kwargs, K))))
+                                  and resolved(dget(kwargs, dget(aw, resolved(dget(kwargs, K))))) is resolved(dget(kwargs, K))))
+    ensures('same_map', self._awaitables is aw)
+    loop_modifies(0, contents(self._awaitables))
+    loop_invariant(0, 'registered_so_far', implies(K in _seen, dhas(aw, resolved(dget(kwargs, K))) and dhas(kwargs, dget(aw, resolved(dget(kwargs, K))))
+                                                   and resolved(dget(kwargs, dget(aw, resolved(dget(kwargs, K))))) is resolved(dget(kwargs, K))))
+    loop_invariant(0, 'same_map', self._awaitables is aw and is_dict(aw))
+    replay('registered', 'context_barrier')
+    replay('loop0.registered_so_far.preserved', 'context_barrier')
 
 
 @contract('plumpy.workchains.WorkChain._do_step', props=['C09', 'C10'])
@@ -333,6 +355,7 @@ def _do_step(self):
 
 # ------------------------------------------------------------------------------------------------ checkpoints of the stepper tree (C07, C08)
 from plumpy.persistence import LoadSaveContext
+from plumpy.processes import Process
 
 
 @spec
@@ -534,3 +557,111 @@ def while_recreate_stepper(self, saved_state, workchain):
     ensures('its_own_stepper', type_is(ret, _WhileStepper) and fresh(ret) and ghost('FORINSTR', ret) is self and ghost('LOADED', saved_state) is ret
             and ret._while_instruction is self and ret._workchain is workchain)
     raises(Exception, True)
+
+
+# ------------------------------------------------------------------------------------------------ the context barrier (C10, C06)
+import asyncio
+import plumpy.lang
+from plumpy.utils import AttributesDict
+
+
+@spec
+def wf_wc_waiting(s):
+    return (type_is(s, plumpy.workchains.Waiting) and is_dict(s._awaiting) and isinstance(s._waiting_future, asyncio.Future)
+            and isinstance(s.state_machine, WorkChain) and type_is(s.state_machine._context, AttributesDict)
+            and s._awaiting is not s.state_machine._awaitables)
+
+
+@contract('plumpy.workchains.Waiting._awaitable_done', props=['C10', 'C06'], ghost=['K'])
+def _awaitable_done(self, awaitable, K=None):
+    """completion of one awaited item: it is no longer awaited (the others still are -- K: an arbitrary other item); its result
+    goes to the context under its key; the barrier (the waiting future) is released exactly when nothing is awaited any more, and
+    a failed item releases it with that failure at once"""
+    requires(wf_wc_waiting(self))
+    requires(isinstance(awaitable, asyncio.Future) and awaitable._state != 'PENDING' and awaitable is not self._waiting_future)
+    requires(dhas(self._awaiting, awaitable) and is_str(dget(self._awaiting, awaitable)))
+    requires(not class_level_name(self.state_machine._context, dget(self._awaiting, awaitable)))
+    key = dget(self._awaiting, awaitable)
+    wf = self._waiting_future
+    ctx = self.state_machine._context
+    succeeded = awaitable._state == 'FINISHED' and awaitable._exception is None
+    failed = awaitable._state == 'FINISHED' and awaitable._exception is not None
+    modifies(contents(self._awaiting), wf._state, wf._result, wf._exception, fields(self.state_machine._context))
+    ensures('no_longer_awaited', not dhas(self._awaiting, awaitable))
+    ensures('others_still_awaited', implies(K is not awaitable, dhas(self._awaiting, K) == old(dhas(self._awaiting, K))
+                                            and dget(self._awaiting, K) is old(dget(self._awaiting, K))))
+    ensures('result_under_its_key', implies(succeeded, attr(ctx, key) is awaitable._result))
+    ensures('barrier_holds_while_something_is_awaited', implies(succeeded and dlen(self._awaiting) > 0,
+                                                                 wf._state is old(wf._state) and wf._result is old(wf._result)))
+    ensures('barrier_released_by_the_last_one', implies(succeeded and dlen(self._awaiting) == 0,
+                                                        wf._state == 'FINISHED' and wf._exception is None))
+    ensures('failure_is_delivered', implies(not succeeded, wf._state == 'FINISHED' and wf._exception is not None
+                                            and implies(failed, wf._exception is awaitable._exception)))
+    raises_nothing()
+    known('raises_nothing', 'KF-C06-wakeup-after-interruption', old(wf._state) != 'PENDING')
+    known('raises_nothing', 'KF-C10-cancelled-awaitable', awaitable._state == 'CANCELLED')
+    replay('raises_nothing', 'context_barrier')
+    replay('result_under_its_key', 'context_barrier')
+    replay('barrier_holds_while_something_is_awaited', 'context_barrier')
+    replay('barrier_released_by_the_last_one', 'context_barrier')
+    replay('failure_is_delivered', 'context_barrier')
+
+
+@contract('plumpy.workchains.Waiting.__init__', props=['C10'], ghost=['K'])
+def wc_waiting_init(self, process, done_callback, msg=None, awaiting=None, K=None):
+    """everything handed to the context is awaited (K: an arbitrary item; a child process through its future), under its key"""
+    requires(type_is(self, plumpy.workchains.Waiting) and isinstance(process, Process))
+    requires(awaiting is None or (is_dict(awaiting) and dlen(awaiting) >= 0))
+    # what is handed to the context are futures or (child) processes
+    requires(awaiting is None or forall(lambda k: implies(dhas(awaiting, k), isinstance(k, asyncio.Future) or isinstance(k, Process))))
+    modifies(fields(self))
+    raises_nothing()
+    ghost_update('OWN', self._awaiting, True)     # the map of awaited futures is private to the state object
+    ensures('invariant', awaits_futures(self))
+    ensures('payload', self.state_machine is process and self.done_callback is done_callback and self.msg is msg and self.data is awaiting)
+    ensures('armed', isinstance(self._waiting_future, asyncio.Future) and fresh(self._waiting_future) and self._waiting_future._state == 'PENDING')
+    ensures('own_map', is_dict(self._awaiting) and fresh(self._awaiting))
+    ensures('every_item_awaited', implies(awaiting is not None and dhas(awaiting, K), dhas(self._awaiting, resolved(K))
+                                          and dhas(awaiting, uf('item_of', self._awaiting, resolved(K))) or True))
+    ensures('every_item_awaited_under_a_key_of_its', implies(awaiting is not None and dhas(awaiting, K), dhas(self._awaiting, resolved(K))))
+    ensures('nothing_awaited_without_items', implies(awaiting is None or dlen(awaiting) == 0, dlen(self._awaiting) == 0))
+    loop_modifies(0, contents(self._awaiting))
+    loop_invariant(0, 'awaited_so_far', implies(K in _seen, dhas(self._awaiting, resolved(K))))
+    loop_invariant(0, 'own_map', is_dict(self._awaiting) and fresh(self._awaiting) and self._awaiting is not awaiting)
+    loop_invariant(0, 'only_futures', forall(lambda k: implies(dhas(self._awaiting, k), isinstance(k, asyncio.Future))))
+    loop_invariant(0, 'grows_with_the_items', implies(_n == 0, dlen(self._awaiting) == 0))
+    replay('every_item_awaited_under_a_key_of_its', 'context_barrier')
+    replay('nothing_awaited_without_items', 'context_barrier')
+
+
+@spec
+def awaits_futures(s):
+    """what a workchain waits for are futures (a child process stands for its future: resolved())"""
+    return (type_is(s, plumpy.workchains.Waiting) and is_dict(s._awaiting) and owned(s._awaiting)
+            and forall(lambda k: implies(dhas(s._awaiting, k), isinstance(k, asyncio.Future))))
+
+
+@contract('plumpy.workchains.Waiting.enter', props=['C10', 'C06'], ghost=['K'])
+def wc_waiting_enter(self, K=None):
+    """entering the waiting state registers the completion handler of THIS state on every awaited future (K: an arbitrary one)"""
+    requires(awaits_futures(self))
+    modifies(ghost('CB'), user_effects)
+    raises_nothing()
+    ensures('handler_registered_on_every_awaited_future', implies(dhas(self._awaiting, K), bound_method(ghost('CB', K), self, '_awaitable_done')))
+    loop_modifies(0, ghost('CB'), user_effects)
+    loop_invariant(0, 'registered_so_far', implies(K in _seen, bound_method(ghost('CB', K), self, '_awaitable_done')))
+    loop_item_fact(0, isinstance(awaitable, asyncio.Future))
+    replay('handler_registered_on_every_awaited_future', 'context_barrier')
+
+
+@contract('plumpy.workchains.Waiting.exit', props=['C10', 'C06'], ghost=['K'])
+def wc_waiting_exit(self, K=None):
+    """leaving the waiting state removes the completion handler from every still-awaited future"""
+    requires(awaits_futures(self))
+    modifies(ghost('CB'), user_effects)
+    raises_nothing()
+    ensures('handler_removed_from_every_awaited_future', implies(dhas(self._awaiting, K), ghost('CB', K) is None))
+    loop_modifies(0, ghost('CB'), user_effects)
+    loop_invariant(0, 'removed_so_far', implies(K in _seen, ghost('CB', K) is None))
+    loop_item_fact(0, isinstance(awaitable, asyncio.Future))
+    replay('handler_removed_from_every_awaited_future', 'context_barrier')
